@@ -80,3 +80,18 @@ Definition check_from_indices (n c : nat) (g tol : Q) (xs : list vtr) (idx : lis
   shape_ok [length idx] flat_shape && shape_ok [length idx; 1%nat] col_shape &&
   list_eqb (opt_eqb (cell_eqb tol)) flat_rows (gather (store (nbuf s)) idx) &&
   list_eqb (opt_eqb (cell_eqb tol)) col_rows (gather_col (store (nbuf s)) (map (fun i => [i]) idx)).
+
+(* streams with resets and clear(): the observations belong to the OStep operations *)
+Fixpoint check_trace_op (info : list vtr -> vtr) (n : nat) (tol : Q) (s : pstate) (ops : list op) (obs : list obs1) : bool :=
+  match ops with
+  | [] => match obs with [] => true | _ => false end
+  | OStep t :: ops' =>
+      match obs with
+      | o :: obs' => let s' := pair_step info n s t in check_one tol s' o && check_trace_op info n tol s' ops' obs'
+      | [] => false
+      end
+  | o :: ops' => check_trace_op info n tol (op_step info n s o) ops' obs
+  end.
+
+Definition check_run_op (n c : nat) (g tol : Q) (ops : list op) (obs : list obs1) : bool :=
+  check_trace_op (n_step_info g) n tol (pinit c) ops obs.
